@@ -206,6 +206,9 @@ func (s *setupWorker) setup(ctx context.Context, m transport.Metadata) error {
 		decoder: decoder.New(),
 		manager: s.manager,
 	}
+	// the CONNECT read deadline must not outlive CONNECT: the keep-alive
+	// allowance starts now
+	session.ExtendDeadline()
 	go worker.serve(ctx, session)
 	return s.encoder.ConnAck(c, &packet.ConnAck{
 		Header:     connectPkt.Header,
